@@ -160,7 +160,7 @@ fn verif_sweep_c11_consumer_lives_end_to_end() {
             }
         }
         for e in endings {
-            run(k, e);
+            with_watchdog(format!("deliveries={} ending={:?}", k, e), 30, move || run(k, e));
             count += 1;
         }
     }
